@@ -19,6 +19,7 @@ import (
 	"math"
 	"math/big"
 	"sort"
+	"strings"
 	"time"
 
 	"pgregory.net/rapid"
@@ -62,6 +63,7 @@ type UIDC struct {
 // SCTC describes one element of the embedded SCT list.
 type SCTC struct {
 	Kind    string // anchor | wf | opaque
+	Version uint8  // wf: the sct_version octet (0 = v1; anything else is opaque to the list codec but still has the SCT layout)
 	LogIdx  int    // wf: selects the log id
 	TS      uint64 // wf
 	ExtLen  int    // wf / anchor: length of the CtExtensions
@@ -91,6 +93,7 @@ type Case struct {
 	SigAlg        int // index into pki.SigAlgsFor(issuer key)
 	PreIssuer     bool
 	PIName        NameC
+	PIRespell     bool // the precertificate spells the pre-issuer's name with other string types than the pre-issuer certificate does
 	PIKeyIdx      int
 	PIAKI         int  // 0 none, 1 key id (20), 2 short key id, 3 key id + issuer + serial, 4 long key id
 	PIAKICrit     bool
@@ -320,6 +323,9 @@ func genSCTs(t *rapid.T, signedAnchor bool) []SCTC {
 		s := SCTC{Kind: "wf", LogIdx: rapid.IntRange(0, 7).Draw(t, "log"), TS: genTimestamp(t, "scts"),
 			Hash: uint8(rapid.IntRange(0, 6).Draw(t, "hash")), Sig: uint8(rapid.IntRange(0, 3).Draw(t, "sig")),
 			SigLen: rapid.IntRange(0, 80).Draw(t, "siglen")}
+		if rapid.IntRange(0, 3).Draw(t, "nonv1") == 0 {
+			s.Version = uint8(rapid.IntRange(1, 255).Draw(t, "sctversion"))
+		}
 		switch rapid.IntRange(0, 9).Draw(t, "extmode") {
 		case 0:
 			s.ExtLen = rapid.IntRange(1, 300).Draw(t, "extlen")
@@ -363,6 +369,7 @@ func genCase(t *rapid.T, signedAnchor bool) Case {
 	if c.PreIssuer {
 		c.IssuerCTEKU = rapid.IntRange(0, 2).Draw(t, "issctEKU") == 0
 		c.PIName = genName(t, "pi", false)
+		c.PIRespell = rapid.IntRange(0, 3).Draw(t, "pirespell") == 0
 		c.PIKeyIdx = rapid.IntRange(0, 5).Draw(t, "piidx")
 		c.PIAKI = rapid.IntRange(0, 4).Draw(t, "piaki")
 		if rapid.IntRange(0, 2).Draw(t, "piakinone") == 0 {
@@ -437,6 +444,33 @@ func nameOf(n NameC) pki.Name {
 			uniq = append(uniq, a)
 		}
 		out = append(out, uniq)
+	}
+	return out
+}
+
+// respell returns the same name with every attribute value moved to another string type where the value
+// allows it (PrintableString / IA5String -> UTF8String, UTF8String -> PrintableString): the same
+// distinguished name under RFC 5280 s7.1 comparison, other DER.
+func respell(n NameC) NameC {
+	out := make(NameC, len(n))
+	for i, rdn := range n {
+		for _, a := range rdn {
+			switch a.Tag {
+			case derx.TagPrintable, derx.TagIA5:
+				a.Tag = derx.TagUTF8String
+			default:
+				ok := true
+				for _, r := range a.Val {
+					if r > 0x7f || !strings.ContainsRune(printableChars, r) {
+						ok = false
+					}
+				}
+				if ok {
+					a.Tag = derx.TagPrintable
+				}
+			}
+			out[i] = append(out[i], a)
+		}
 	}
 	return out
 }
@@ -591,7 +625,7 @@ type World struct {
 	I, PI, PINoEKU                    []byte // certificates
 	SibKey                            *keys.Key
 	SibI                              []byte // sibling issuer certificate
-	IName, PISubject                  pki.Name
+	IName, PISubject, IssuerOfP       pki.Name // IssuerOfP: the issuer name as written in the precertificate
 	PIAKIValue                        []byte // extnValue contents of the pre-issuer's AKI (nil: none)
 
 	Content []pki.Ext // non-CT extensions of C, in order
@@ -762,11 +796,15 @@ func Build(c *Case, realSig bool) *World {
 		w.PINoEKU = caCert(w.PISubject, w.IName, w.PIKey, w.IssuerKey, w.Alg, 2000, without)
 		signerOfP = w.PIKey
 		issuerOfP = w.PISubject
+		if c.PIRespell {
+			issuerOfP = nameOf(respell(c.PIName))
+		}
 	}
 
 	for i, e := range c.Exts {
 		w.Content = append(w.Content, extOf(e, i))
 	}
+	w.IssuerOfP = issuerOfP
 	w.PoisonP = clamp(c.PoisonPos, len(w.Content))
 	w.Poison = pki.Poison()
 	w.Poison.Critical = !c.PoisonNonCrit
@@ -898,7 +936,7 @@ func (w *World) buildList(c *Case, realSig bool) {
 			w.SCTModels = append(w.SCTModels, nil)
 			w.SCTs = append(w.SCTs, b)
 		default:
-			m := &rfc6962.SCT{LogID: logID(s.LogIdx), Timestamp: s.TS, Extensions: det(fmt.Sprintf("ext/%d", i), s.ExtLen),
+			m := &rfc6962.SCT{Version: s.Version, LogID: logID(s.LogIdx), Timestamp: s.TS, Extensions: det(fmt.Sprintf("ext/%d", i), s.ExtLen),
 				Signature: rfc6962.DigitallySigned{Hash: s.Hash, Sig: s.Sig, Signature: det(fmt.Sprintf("sig/%d", i), s.SigLen)}}
 			if filler < 0 {
 				filler = i
@@ -980,6 +1018,15 @@ func lenClass(n int) string {
 func (w *World) classify(c *Case, v *harness.Verdict) {
 	if c.PreIssuer && c.IssuerCTEKU {
 		v.Class("final-issuer-has-ct-eku")
+	}
+	if c.PreIssuer && !bytes.Equal(w.IssuerOfP.DER(), w.PISubject.DER()) {
+		v.Class("precert-respells-preissuer-name")
+	}
+	for _, m := range w.SCTModels {
+		if m != nil && m.Version != 0 {
+			v.Class("list-has-non-v1-sct")
+			break
+		}
 	}
 	if c.PreIssuer {
 		v.Class("route=preissuer")
